@@ -3,7 +3,7 @@ from checks import kern, modelstep
 
 TECHNIQUE = "symbolic execution of the real integration methods (Model.update_links/update_comps/flush_junctions and the Compartment/Junction/Timed kernels) on z3-real proxies with state merging and cuts; SMT obligations (z3, cvc5 portfolio); counterexamples replayed on the unpatched code"
 EXPLANATION = 'Same real step as C01; obligations: every recorded flow >= 0, sum of outflows <= stock (per row for timed compartments), pairwise ratio preservation flow_i*request_j == flow_j*request_i (common scale factor; per row), a parameter value <= 0 gives zero flow, junction flows >= 0 for proportions of any sign, next stocks/rows >= 0. Bounds: micro-graphs as listed per group; |values| <= 1e9, dt in [1/365,5], timescales in [1e-3,1e3]; real arithmetic (tolerance 1e-9 relative, 1e-8 for C03). Outside: larger fan-outs, float rounding, multi-step interactions other than through the arbitrary pre-state.'
-GROUP_TIMEOUT = {"quick": 900, "thorough": 3000}
+GROUP_TIMEOUT = {"quick": 1800, "thorough": 3600}
 
 
 def groups(tier):
